@@ -196,8 +196,8 @@ class Ready:
                 vg.run(h, '')
                 vgs.append((vg, h.name, self.B.pre + self.inv))
         # facts derived on this tree (not assumed): constructor-only float fields, buffer-sum accumulators
-        from .e_window import buffer_sum_facts, extremum_facts, cross_term_facts
-        derived = ctor_constant_facts(self.m, self.B) + buffer_sum_facts(self.F, v) + extremum_facts(self.F, v) + cross_term_facts(self.F, v)
+        from .e_window import buffer_sum_facts, extremum_facts, cross_term_facts, buffer_elem_facts
+        derived = ctor_constant_facts(self.m, self.B) + buffer_sum_facts(self.F, v) + extremum_facts(self.F, v) + cross_term_facts(self.F, v) + buffer_elem_facts(self.F, v)
         counters['derived-facts'] = counters.get('derived-facts', 0) + len(derived)
         for vg, label, entry in vgs:
             ctx = self.B.ctx(vg)
